@@ -238,6 +238,12 @@ impl SwarmDriver {
         self.verif_add_keys_to_replication_fetcher(holder, keys)
     }
 
+    /// Forget when replication last ran (instead of waiting out the real-time throttles).
+    pub fn verif_reset_replication_timers(&mut self) {
+        self.last_replication = None;
+        self.replication_targets.clear();
+    }
+
     pub fn verif_self_peer_id(&self) -> PeerId {
         self.self_peer_id
     }
